@@ -30,7 +30,8 @@ def stream(ctx, n, order, tts, positions=None, total=None):
     function's variables 0..n-1 sit at the levels `positions` (in `order`),
     so that the support skips levels and reaches deep ones"""
     if positions is None:
-        M = Mgr(ctx, f'sat n={n} order={order}', n, order)
+        aged = ctx.rng.random() < 0.5
+        M = Mgr(ctx, f'sat n={n} order={order} aged={aged}', n, order, aged=aged)
     else:
         full = [None] * total
         for j in range(n):
